@@ -32,7 +32,9 @@ PROPS["C11"] = dict(
     bounds="Shelley kinds: network 0..15, both credential kinds, all hash bytes, pointer triples over all u64; "
            "strict parser: every non-Byron byte string of <= 34 bytes and base-address candidates of 55..60 bytes "
            "(the embedded-parser harness does not finish within 30 min even for 6 carried bytes and is not part of the claim)",
-    assumptions=["Byron headers (0b1000) are excluded from the Shelley harnesses; Bech32/Base58 text forms are outside the bound"],
+    assumptions=["Byron headers (0b1000) are excluded from the Shelley harnesses; Bech32/Base58 text forms are outside the bound",
+                 "Byron: only the attribute map (derivation payload, protocol magic over all u32) is decided, at token level (E2); root hash, crc32 wrapper and Base58 are not"],
+    e2=["c11"],
     e1=[
         J("c11_enc_base", bound="kind base; net<16; both credential kinds; all hash bytes", encodes=["Address::to_bytes", "kind", "network_id", "payment_cred"], unwind_fn=HL, mem_gb=10),
         J("c11_rt_base", tier="thorough", bound="kind base; net<16; both credential kinds; all hash bytes", encodes=["Address::from_bytes", "BaseAddress::from_address"], unwind_fn=HL, mem_gb=10, timeout_s=900),
